@@ -730,6 +730,7 @@ EXPLANATION = (
     "types, Python call-site argument order vs parsed variables, wrapper-to-library argument order by parameter name, "
     "Py_BuildValue order vs unpacking. R6: the uint64 block index is only used through int(). Does NOT decide block "
     "cutting / offset arithmetic or the merge of blocks.")
+TECHNIQUE = ('clang JSON AST + Python ast; concrete evaluation of the dtype table; regular-language algebra on name formats; float-taint; reaching definitions + symbolic expansion of extension arguments; cross-language interface agreement')
 ASSUMPTIONS = ["HDF5 predefined type names encode class, width and order as documented", "numpy dtype.kind/itemsize/byteorder semantics",
                "clang 14 AST and CPython ast are faithful"]
 FILES = [C_LIB, C_EXT, PYRF, "python/digital_rf/list_drf.py"]
